@@ -1,7 +1,21 @@
 (* C15 — Gaussian-splat codecs keep every splat's fields within one quantisation step.
-   Statements only; proofs live in Formats/SplatProofs.v and Formats/SpzProofs.v.
-   Models: Formats/Splat.v (splat.Write / splat.Read, SplatPly table), Formats/Spz.v (spz.Read after
-   gunzip, reference encoder of the published layout). *)
+
+   THE PROPERTY, in three clauses (each stated once below as one theorem; the other theorems are their parts):
+
+   (1) .splat   [splat_clause]  Writing a splat cloud to the .splat format and reading it back returns the same
+       number of splats in order with exact float32 positions, scales equal up to float32 rounding of exp/log, and
+       colour, opacity and rotation within one 8-bit step of the original (colours clamp to the displayable range).
+   (2) SPZ      [spz_clause]    Decoding an SPZ stream built to the published layout (versions 1 and 2, any
+       fractional-bit count and harmonics degree) returns, for splat i, exactly the dequantised values of record i
+       with all attribute arrays of the declared length.
+   (3) SplatPly [splatply_roundtrip]  The PLY splat export preserves all splat attributes at float32 precision:
+       ply.ReadMesh of the file written by ply.SplatPly returns the same point cloud, every attribute of the 51-writer /
+       62-property table under its own name with every component the float64 image of the float32 that was written.
+
+   Statements only; proofs live in Formats/SplatProofs.v, SplatReal.v, SpzProofs.v, SplatPlyLink.v.
+   Models: Formats/Splat.v (splat.Write / splat.Read, SplatPly table), Formats/Spz.v (spz.Read after gunzip,
+   reference encoder of the published layout); clause (3) is stated on C04's writer model (Formats/PlyWrite.v) and
+   C08's reader model (Formats/PlyRead.v). *)
 From PF Require Import Base.Bytes Formats.Splat Formats.SplatProofs Formats.Spz Formats.SpzProofs.
 From Coq Require Import QArith Qabs.
 From PF Require Formats.SplatReal.
@@ -130,6 +144,25 @@ Theorem spz_field_i : forall (h : header) (ps : list prec) (i : nat), (i < lengt
 Proof. exact fields_of_nth. Qed.
 Print Assumptions spz_field_i.
 
+(* clause (2) in one statement *)
+Theorem spz_clause : forall (h : header) (ps : list prec) (extra : list N),
+  header_ok h -> validate h = true -> lengths_match h ps ->
+  exists f, decode (encode_ref h ps ++ extra) = Some (h, f) /\
+    (let n := length ps in
+     length (f_pos f) = n /\ length (f_alpha f) = n /\ length (f_col f) = n /\ length (f_scale f) = n /\
+     length (f_rot f) = n /\ length (f_sh f) = sh_dim (h_shdeg h) /\ Forall (fun a => length a = n) (f_sh f)) /\
+    forall i, (i < length ps)%nat ->
+      let r := Spz.dequantise h (nth i ps dflt_prec) in
+      nth i (f_pos f) dflt_x3 = d_pos r /\ nth i (f_alpha f) 0%Q = d_alpha r /\
+      nth i (f_col f) Spz.dflt_q3 = d_col r /\ nth i (f_scale f) Spz.dflt_q3 = d_scale r /\
+      nth i (f_rot f) dflt_q4 = d_rot r /\
+      forall d, (d < sh_dim (h_shdeg h))%nat -> nth i (nth d (f_sh f) []) Spz.dflt_q3 = nth d (d_sh r) Spz.dflt_q3.
+Proof.
+  intros h ps extra Hh Hv Hm. exists (fields_of h ps). split; [apply decode_encode_ref; assumption|].
+  split; [apply fields_of_lengths|]. intros i Hi. apply fields_of_nth. exact Hi.
+Qed.
+Print Assumptions spz_clause.
+
 (* a strict prefix of a reference stream is rejected (io.ReadFull fails on the short array), and so
    is any stream whose header fails Validate (magic, version 1..2, <= 10^7 points, degree <= 3) *)
 Theorem spz_truncated_rejected : forall (h : header) (ps : list prec) (k : nat),
@@ -182,14 +215,10 @@ Print Assumptions spz_dequantisers_injective.
 
 (* ====================== SplatPly ====================== *)
 
-(* _partial: the full statement is "ply.ReadMesh (SplatPly.Write cloud) returns every attribute
-   of the cloud with each component rounded to float32" — a corollary of the C04 writer / C08
-   reader round trip once that theorem exists (Formats/PlyWrite.v has no round-trip theorem yet).
-   Proved here: the writer table has 51 entries and 62 float properties, no property name twice
-   (also for every subset of attributes present), each entry has as many names as components, and
-   the default reader attributes the j-th name of entry a back to (a, j); the binary body has 4 bytes
-   per property and vertex.  The byte-level round trip is checked per case (Check/C15.v CPly). *)
-Theorem splatply_roundtrip_partial :
+(* facts about the writer table on their own: 51 entries / 62 float properties; no property name twice, for every
+   subset of attributes present; each entry has as many names as components and the default reader attributes the
+   j-th name of entry a back to (a, j); the binary body has 4 bytes per property and vertex *)
+Theorem splatply_table_facts :
   (length splatply_table = 51%nat /\ length (splatply_props all_attrs) = 62%nat) /\
   (forall present, NoDup (splatply_props present)) /\
   (forall a k ps j p, In (a, k, ps) splatply_table -> nth_error ps j = Some p -> reader_lookup p = (a, j)) /\
@@ -198,26 +227,45 @@ Proof.
   split; [split; apply splatply_table_ok|]. split; [exact splatply_props_nodup|].
   split; [exact splatply_names_back|exact ply_body_length].
 Qed.
-Print Assumptions splatply_roundtrip_partial.
+Print Assumptions splatply_table_facts.
 
-(* The vertex block through the PLY reader model (Formats/PlyRead.v, C08) with the reader layout of
-   the written groups (Formats/PlyWriteProofs.v, C04): a cloud given as attribute -> n rows of float32
-   words is laid out by the SplatPly table as [ply_body] and read back, vertex by vertex and
-   attribute by attribute in table order, as the float64 image [cvF] of exactly the words written
-   ("all splat attributes at float32 precision"); the bytes after the block are left untouched.
-   Still _partial with respect to the full statement: the header text and the step "parse the header
-   and build the readers = [layout]" are C04's mesh-level glue, not proved there yet. *)
+(* clause (3).  [splat_opts] is the SplatPly writer table as a C04 writer table (51 writers, all float,
+   WriteUnspecifiedProperties off); [splat_cloud_ok m]: point topology, at least one vertex, every attribute one row
+   of its dimension of float32 words per vertex.  For EVERY such cloud, whatever subset of the 51 attributes it has
+   (any SH degree), the binary little-endian file is written, its header parses, ply.ReadMesh builds its readers on
+   the written property list, and the result is the same point cloud (identity indices, n vertices) whose attribute
+   list holds, for each written group g, exactly [gattr g] = (components, name, rows of the float64 images cvF of
+   the float32 words written) -- the named groups in the READER's table order (Position, Normal, FDC, Opacity,
+   Scale, Rotation: SplatPly writes Opacity after Rotation), then f_rest_* in file order.  [splat_attrs_same] /
+   [splat_attrs_count]: that list has the same elements and the same length as the writer-side view
+   [rview splat_opts m] of C04's [expected].  Proof: C04's placed-readers theorem (read_mesh_pointcloud_placed) for the
+   readers computed here for all 64 subsets of the named groups and, by induction, any set of f_rest_* scalars.
+   (The empty cloud writes nothing but a header with zero vertices; it is covered by the per-case check.) *)
 Module SplatPlyVertex.
 Import PlyRead PlyWrite PlyWriteProofs SplatPlyLink.
 Import Coq.Strings.String.
 Open Scope list_scope.
-Theorem splatply_vertex_roundtrip_partial : forall (n : nat) (data : list adata) (rest : list N),
+Theorem splatply_roundtrip : forall m : wmesh, splat_cloud_ok m ->
+  exists file, PlyWrite.write splat_opts BinLE m = Ok file /\
+    read_mesh file = Ok {| m_topo := TPoint; m_idx := iota (w_n m);
+                           m_attrs := map gattr (reorder rg_attr (pregs m) ++ tail m) |} /\
+    (forall a, In a (map gattr (reorder rg_attr (pregs m) ++ tail m)) <-> In a (map gattr (rview splat_opts m))) /\
+    List.length (reorder rg_attr (pregs m) ++ tail m) = List.length (rview splat_opts m).
+Proof.
+  intros m H. destruct (splatply_whole_file m H) as (file & Hw & Hr). exists file.
+  split; [exact Hw|]. split; [exact Hr|]. split; [apply splat_attrs_same|apply splat_attrs_count].
+Qed.
+Print Assumptions splatply_roundtrip.
+
+(* the vertex block alone: laid out by the C15 body model [ply_body] and read by the reader model's binary vertex
+   routine with the laid-out readers; trailing bytes untouched *)
+Theorem splatply_vertex_block : forall (n : nat) (data : list adata) (rest : list N),
   data_ok n data ->
   let gs := splat_groups data in
   read_vertices_bin LEnd (layout true gs 0) (record_size (vertex_props gs)) n (ply_body (group_rows gs n) ++ rest)
   = Ok (map (fun i => map (fun g => map cvF (rowi g i)) gs) (seq 0 n), rest).
 Proof. exact splatply_cloud_roundtrip. Qed.
-Print Assumptions splatply_vertex_roundtrip_partial.
+Print Assumptions splatply_vertex_block.
 (* non-vacuity: a one-splat cloud with a position and an opacity is well formed for the table *)
 Example splatply_example :
   data_ok 1 [("Position"%string, [[1065353216; 0; 3212836864]]); ("Opacity"%string, [[1056964608]])] /\
@@ -226,6 +274,17 @@ Proof.
   split; [|vm_compute; reflexivity]. unfold data_ok. vm_compute splat_groups.
   repeat constructor; unfold word32; cbn; lia.
 Qed.
+(* non-vacuity of [splat_cloud_ok]: a one-splat degree-0 cloud with two f_rest attributes; the readers come back in
+   the reader's order (Opacity before Scale and Rotation) *)
+Example splatply_cloud_example :
+  let A d n r := {| wa_dim := d; wa_name := n; wa_rows := r |} in
+  let m := {| w_topo := TPoint; w_idx := [0%nat]; w_n := 1;
+              w_attrs := [A 4%nat "Rotation"%string [[1065353216; 0; 0; 0]]; A 3%nat "FDC"%string [[1; 2; 3]]; A 3%nat "Position"%string [[5; 6; 7]];
+                          A 3%nat "Scale"%string [[8; 9; 10]]; A 1%nat "Opacity"%string [[11]]; A 1%nat "f_rest_0"%string [[12]]; A 1%nat "f_rest_1"%string [[13]]] |} in
+  splat_cloud_ok m /\
+  map rg_attr (rview splat_opts m) = ["Position"%string; "FDC"%string; "Scale"%string; "Rotation"%string; "Opacity"%string; "f_rest_0"%string; "f_rest_1"%string] /\
+  map rg_attr (reorder rg_attr (pregs m) ++ tail m) = ["Position"%string; "FDC"%string; "Opacity"%string; "Scale"%string; "Rotation"%string; "f_rest_0"%string; "f_rest_1"%string].
+Proof. cbv zeta. split; [repeat split; auto|split; vm_compute; reflexivity]. Qed.
 End SplatPlyVertex.
 
 (* ====================== non-vacuity ====================== *)
@@ -267,4 +326,18 @@ Theorem splat_scale_real : forall (rnd : R -> R) (u : R) (dom : R -> Prop),
   forall s, dom (exp s) -> Rabs (ln (rnd (exp s)) - s) <= 2 * u.
 Proof. exact SplatReal.scale_roundtrip_real. Qed.
 Print Assumptions splat_scale_real.
+
+(* clause (1) in one statement: count, order, exact float32 positions, stored scale word kept (and the log of the
+   stored float32(exp s) within 2u of s), colour / opacity / rotation within one 8-bit step.  [sp_scale] of a splat
+   IS the float32 word of exp(scale) -- the first conjunct keeps it bit for bit ([within_step]: o_scale o = sp_scale s),
+   the second bounds what taking its logarithm gives back. *)
+Theorem splat_clause :
+  (forall cloud : list splat, Forall splat_ok cloud ->
+     exists cloud', Splat.read (Splat.write cloud) = (cloud', true) /\ length cloud' = length cloud
+                    /\ Forall2 within_step cloud cloud') /\
+  (forall (rnd : R -> R) (u : R) (dom : R -> Prop), 0 <= u <= / 2 ->
+     (forall y, 0 < y -> dom y -> Rabs (rnd y - y) <= u * y) ->
+     forall s, dom (exp s) -> Rabs (ln (rnd (exp s)) - s) <= 2 * u).
+Proof. split; [exact SplatProofs.roundtrip_quant|exact SplatReal.scale_roundtrip_real]. Qed.
+Print Assumptions splat_clause.
 End RealScale.
